@@ -70,7 +70,7 @@ def main():
             d = tempfile.mkdtemp(prefix="verif_hostile_replay_")
             try:
                 r = subprocess.run([sys.executable, "-O", "-B", os.path.abspath(__file__), pid, "--tier", tier, "--replay", os.path.abspath(a.replay)],
-                                   env=dict(os.environ, **HOSTILE_ENV), cwd=d)
+                                   env=dict(os.environ, **dict(HOSTILE_ENV, PYTHONHASHSEED=str(rec["case"].get("__hashseed__", HOSTILE_ENV["PYTHONHASHSEED"])))), cwd=d)
             finally:
                 import shutil
 
